@@ -1,7 +1,7 @@
 (* Corr/C08.v — correspondence glue: runs Model/ConnState.v on a history that the Go harness drove through the real
    connstate.Store / SessionManager instances of several nodes over one shared storage, and compares FindClientNode
    for every client, as answered on every node, after EVERY event.
-   case value: [ variant [guard; refresh_idx; hb; ptr] ; backend [ptr; incl] ; ttl ; mode (0 store | 1 session) ;
+   case value: [ variant [guard; refresh_idx; hb; ptr; cas (mode 2 only: index test-and-write is one CompareAndSwap)] ; backend [ptr; incl] ; ttl ; mode (0 store | 1 session) ;
                  clients [x ...] ; ops [[code; a; b; c; d] ...] ; obs [ per op: [ per node: [ per client: [kind; n; c] ] ] ] ]
    kind: 0 = not found / expired, 1 = found (n, c), 2 = any other error.  Tick durations are in ms.
    Session code 7 (StaleSweep n c: the node's periodic sweep finds control connection c silent beyond the heartbeat
@@ -87,9 +87,9 @@ Definition dec_prog (v : tval) : tprog :=
   end.
 
 (* one method invocation alone, to completion (at most 4 storage calls) *)
-Definition tseq (sh : tstore) (p : tprog) : tstore :=
-  let '(p1, s1) := tstep p sh in let '(p2, s2) := tstep p1 s1 in
-  let '(p3, s3) := tstep p2 s2 in let '(_, s4) := tstep p3 s3 in s4.
+Definition tseq (cas : bool) (sh : tstore) (p : tprog) : tstore :=
+  let '(p1, s1) := tstep cas p sh in let '(p2, s2) := tstep cas p1 s1 in
+  let '(p3, s3) := tstep cas p2 s2 in let '(_, s4) := tstep cas p3 s3 in s4.
 
 Definition tres_ok (r : tres) (o : tval) : bool :=
   match r with
@@ -104,19 +104,19 @@ Definition thread_ok (lo : tprog) (o : tval) : bool :=
   | _ => false      (* the phase must have run every invocation to completion *)
   end.
 
-Definition conc_final (ops : tval) : tstate :=
-  let sh0 := fold_left tseq (map dec_prog (vl (vnth 0 ops))) tempty in
-  trun (sh0, map dec_prog (vl (vnth 1 ops))) (map vnat (vl (vnth 2 ops))).
+Definition conc_final (cas : bool) (ops : tval) : tstate :=
+  let sh0 := fold_left (tseq cas) (map dec_prog (vl (vnth 0 ops))) tempty in
+  trun cas (sh0, map dec_prog (vl (vnth 1 ops))) (map vnat (vl (vnth 2 ops))).
 
-Definition check_conc (clients : list N) (ops obs : tval) : bool :=
-  let s := conc_final ops in
+Definition check_conc (cas : bool) (clients : list N) (ops obs : tval) : bool :=
+  let s := conc_final cas ops in
   all2 thread_ok (snd s) (vl (vnth 0 obs))
   && forallb (fun node_obs => all2 tres_ok (map (tfind (fst s)) clients) (vl node_obs)) (vl (vnth 1 obs)).
 
 Definition enc_tres (r : tres) : tval :=
   match r with TFound n c => VL [VN 1; VN n; VN c] | TAbsent => VL [VN 0; VN 0; VN 0] end.
-Definition predict_conc (clients : list N) (ops : tval) : tval :=
-  let s := conc_final ops in
+Definition predict_conc (cas : bool) (clients : list N) (ops : tval) : tval :=
+  let s := conc_final cas ops in
   VL [VL (map (fun lo => match lo with TFindDone r => enc_tres r | TDone => VL [] | _ => VL [VN 9] end) (snd s));
       VL (map (fun x => enc_tres (tfind (fst s) x)) clients)].
 
@@ -125,7 +125,7 @@ Definition check (c : tval) : bool :=
   let b := dec_backend (vnth 1 c) in
   let ttl := vn (vnth 2 c) in
   let clients := map vn (vl (vnth 4 c)) in
-  if vn (vnth 3 c) =? 2 then check_conc clients (vnth 5 c) (vnth 6 c) else
+  if vn (vnth 3 c) =? 2 then check_conc (vbool (vnth 4 (vnth 0 c))) clients (vnth 5 c) (vnth 6 c) else
   if vn (vnth 3 c) =? 0
   then check_store v b ttl clients (0, empty_store) (vl (vnth 5 c)) (vl (vnth 6 c))
   else check_session v b ttl clients init (vl (vnth 5 c)) (vl (vnth 6 c)).
@@ -154,7 +154,7 @@ Definition predict (c : tval) : tval :=
   let b := dec_backend (vnth 1 c) in
   let ttl := vn (vnth 2 c) in
   let clients := map vn (vl (vnth 4 c)) in
-  if vn (vnth 3 c) =? 2 then predict_conc clients (vnth 5 c) else
+  if vn (vnth 3 c) =? 2 then predict_conc (vbool (vnth 4 (vnth 0 c))) clients (vnth 5 c) else
   if vn (vnth 3 c) =? 0
   then VL (predict_store v b ttl clients (0, empty_store) (vl (vnth 5 c)))
   else VL (predict_session v b ttl clients init (vl (vnth 5 c))).
